@@ -18,7 +18,7 @@ RULE = ('case = up to 6 requests with patterns sharing prefixes of length 1..4 a
         '(request script, loss script, observed transmission-time vector).')
 ASSUMPTIONS = ['virtual time: library processing takes zero time, so retransmission instants are exact',
                'two requests with identical patterns pending at once are not generated (the library keys timers by pattern)']
-REQUIRED = ['mon.pairs_of_requests_pending_with_the_same_expectation', 'mon.answers_that_were_the_first_packet_the_object_ever_received',
+REQUIRED = ['mon.answers_handed_out_by_the_driver_of_a_closed_session', 'mon.pairs_of_requests_pending_with_the_same_expectation', 'mon.answers_that_were_the_first_packet_the_object_ever_received',
             'mon.set_up_requests_of_the_library_on_a_link_without_delivery_guarantee',
             'mon.cases_with_a_second_crazyflie_object_waiting_for_the_same_answer',
             'mon.requests_issued_from_the_callback_of_the_previous_answer_with_the_same_expectation',
@@ -43,6 +43,7 @@ def cases(tier, seed):
             for i in range(60 if tier == 'quick' else 400)]
     out += [{'seed': seed * 13 + i, 'kind': 'firstreply', 'sched': rnd.choice(('rtb', 'random', 'pct'))} for i in range(24 if tier == 'quick' else 200)]
     out += [{'seed': seed * 17 + i, 'kind': 'twins', 'sched': rnd.choice(('rtb', 'random', 'pct'))} for i in range(24 if tier == 'quick' else 200)]
+    out += [{'seed': seed * 19 + i, 'kind': 'latepk', 'sched': ('random', 'pct', 'pct', 'rtb')[i % 4]} for i in range(96 if tier == 'quick' else 600)]
     out += [{'seed': seed * 7 + i, 'kind': 'radioflag'} for i in range(2 if tier == 'quick' else 12)]
     out += [{'seed': seed * 5 + i, 'kind': 'usbclose'} for i in range(2 if tier == 'quick' else 12)]
     return out
@@ -407,8 +408,79 @@ def run_twins(desc, ctx):
                          'sent_apart_by': gap}, replay=rp)
 
 
+def run_latepk(desc, ctx):
+    """An answer reaches the driver at the very moment the application closes the link and comes out of that driver's
+    receive call only when the application has already reconnected (the receiving thread was still inside the call):
+    it belongs to the closed session.  A request of the new session that expects the same answer and is not answered on
+    its own link keeps being retransmitted."""
+    from vf import detsched as ds, simlink
+    from cflib.crazyflie import Crazyflie
+    from cflib.crtp.crtpstack import CRTPPacket
+    rnd = random.Random(desc['seed'])
+    prof = gen.profile(desc['seed'], 1, 1, proto=10)
+    T = rnd.choice((0.05, 0.2))
+    pat = [rnd.randrange(1, 250) for _ in range(rnd.randint(1, 3))]
+    chan = rnd.randrange(4)
+    D = rnd.choice((0.01, 0.03, T / 2.0))
+    dev = Responder(prof, {210: {'lose_tx': 0, 'lose_reply': 0, 'delay': D, 'reply': bytes(pat) + b'\xAA'}})
+    spec = simlink.LinkSpec(dev, needs_resending=True, latency=0.0)
+    spec.deliver_queued_after_close = True
+    uri = 'sim://c10late'
+    simlink.SIMS[uri] = spec
+    ob = {}
+
+    def fn(s):
+        dev.now = lambda: s.now
+        cf = Crazyflie()
+        dev.get_link = lambda: cf.link
+        done = ds.Event()
+        cf.connected.add_callback(lambda u: done.set())
+        cf.open_link(uri)
+        if not done.wait(300.0):
+            ob['problem'] = 'connect failed'
+            return
+        s.sleep(0.35)
+        pk = CRTPPacket()
+        pk.set_header(PORT, chan)
+        pk.data = bytes(pat) + bytes([210])
+        cf.send_packet(pk, expected_reply=tuple(pat), timeout=T)
+        s.sleep(D)                # the answer reaches the driver now ...
+        old = cf.link
+        cf.close_link()           # ... and the application closes the link now
+        done.clear()
+        cf.open_link(uri)
+        pk = CRTPPacket()
+        pk.set_header(PORT, chan)
+        pk.data = bytes(pat) + bytes([211])
+        ob['t0'] = s.now
+        ob['rx_after_close_before'] = getattr(spec, 'rx_after_close', 0)
+        cf.send_packet(pk, expected_reply=tuple(pat), timeout=T)
+        s.sleep(6 * T + 0.01)
+        ob['t1'] = s.now
+        ob['handed_out_after_close'] = getattr(spec, 'rx_after_close', 0)
+        ob['old_closed'] = bool(old is not None and old.closed)
+        cf.close_link()
+        s.sleep(0.3)
+    _, abort, sch = harness.sched_case(fn, seed=desc['seed'], policy=desc['sched'], horizon=2000.0)
+    ctx.evals()
+    rp = dict(desc)
+    if abort is not None or sch.deaths or ob.get('problem'):
+        ctx.violate('retry:hang:latepk', {'abort': str(abort), 'deaths': [d[1] for d in sch.deaths][:2], 'problem': ob.get('problem')}, replay=rp)
+        return
+    ctx.count('mon.reconnects_with_an_answer_of_the_closed_session_still_inside_its_driver')
+    if ob.get('handed_out_after_close'):
+        ctx.count('mon.answers_handed_out_by_the_driver_of_a_closed_session')
+    ctx.nontrivial(('latepk', tuple(pat), T, D, sch.signature()))
+    n = len([t for t in spec.tx if (t[2] >> 4) & 0xF == PORT and t[3] and t[3][-1] == 211 and t[0] <= ob['t1']]) - 1
+    if n < 4:
+        ctx.violate('retry:unanswered-request-not-retried-for-as-long-as-the-link-is-open',
+                    {'answer_of_the_closed_session_handed_out_after_the_reconnect': True, 'T': T, 'retransmissions_in_6_intervals': n}, replay=rp)
+
+
 def run(desc, ctx):
     harness.init()
+    if desc.get('kind') == 'latepk':
+        return run_latepk(desc, ctx)
     if desc.get('kind') == 'twins':
         return run_twins(desc, ctx)
     if desc.get('kind') == 'firstreply':
